@@ -223,6 +223,75 @@ theorem tag_roundtrip_explicitH (a b c h : Nat) (hnd : [a, b, c].Nodup) (isH : N
 
 example : translateTetra [7, 3, 9] [3, 1, 7, 9] (fun x => x == 1) (some true) none = .ok false := by decide
 
+/-- the same with the atoms of the rebuilt molecule renumbered (`from_rdkit_molecule` numbers atoms by RDKit index): any
+renumbering `f` that is injective on the neighbours leaves the label read back unchanged -/
+theorem tag_roundtrip4_renumbered (f : Nat → Nat) (a b c d : Nat) (hnd : [a, b, c, d].Nodup)
+    (hinj : ∀ x ∈ [a, b, c, d], ∀ y ∈ [a, b, c, d], f x = f y → x = y) (order order' env env' : List Nat)
+    (ho : order.Perm [a, b, c, d]) (ho' : order'.Perm [a, b, c, d]) (he : env.Perm [a, b, c, d])
+    (he' : env'.Perm [a, b, c, d]) (isH isH' : Nat → Bool) (s : Bool) :
+    ∃ t, translateTetra order env isH (some s) none = .ok t ∧
+         translateTetra (order'.map f) (env'.map f) isH' none (some (Rdkit.retag t (relOdd env env'))) =
+           .ok (s ^^ relOdd order order') := by
+  obtain ⟨t, h1, h2⟩ := tag_roundtrip4 a b c d hnd order order' env env' ho ho' he he' isH isH s
+  exact ⟨t, h1, by rw [translateTetra_map4 f a b c d hnd hinj order' env' ho' he' isH isH' none none _]; exact h2⟩
+
+theorem tag_roundtrip3_renumbered (f : Nat → Nat) (a b c : Nat) (hnd : [a, b, c].Nodup)
+    (hinj : ∀ x ∈ [a, b, c], ∀ y ∈ [a, b, c], f x = f y → x = y) (order order' env env' : List Nat)
+    (ho : order.Perm [a, b, c]) (ho' : order'.Perm [a, b, c]) (he : env.Perm [a, b, c]) (he' : env'.Perm [a, b, c])
+    (isH isH' : Nat → Bool) (s : Bool) :
+    ∃ t, translateTetra order env isH (some s) none = .ok t ∧
+         translateTetra (order'.map f) (env'.map f) isH' none (some (Rdkit.retag t (relOdd env env'))) =
+           .ok (s ^^ relOdd order order') := by
+  obtain ⟨t, h1, h2⟩ := tag_roundtrip3 a b c hnd order order' env env' ho ho' he he' isH isH s
+  exact ⟨t, h1, by rw [translateTetra_map3 f a b c hnd hinj order' env' ho' he' isH isH' none none _]; exact h2⟩
+
+example : translateTetra ([5, 9, 3, 7].map (· + 10)) ([9, 3, 7, 5].map (· + 10)) (fun _ => false) none
+    (some (Rdkit.retag false (relOdd [3, 7, 9, 5] [9, 3, 7, 5]))) = .ok (true ^^ relOdd [7, 3, 9, 5] [5, 9, 3, 7]) := by decide
+
+/-- what `stereogenic_tetrahedrons` (as the model computes it) promises about every entry: the centre is a neutral,
+non-radical carbon with single bonds only, the order is its neighbour list without hydrogens and has 3 or 4 members —
+the shape the round-trip theorems assume -/
+theorem stet_spec (m : Mol) (n : Nat) (o : List Nat) (h : (n, o) ∈ stereogenicTetrahedrons m) :
+    o = ((m.nbrs n).map (·.1)).filter (fun x => !isHOf m x) ∧ (o.length = 3 ∨ o.length = 4) ∧
+    (∀ x ∈ o, isHOf m x = false) ∧ n ∈ tetrahedrons m := by
+  simp only [stereogenicTetrahedrons, List.mem_filterMap] at h
+  obtain ⟨n', hn', hx⟩ := h
+  split at hx
+  · cases hx
+  · split at hx
+    · rename_i hlen
+      simp only [Option.some.injEq, Prod.mk.injEq] at hx
+      obtain ⟨rfl, rfl⟩ := hx
+      refine ⟨rfl, ?_, ?_, hn'⟩
+      · simpa using hlen
+      · intro x hx
+        simp only [List.mem_filter] at hx
+        simpa using hx.2
+    · cases hx
+
+/-- with unique neighbour keys (a Python dict) the reference order has no repetition -/
+theorem stet_nodup (m : Mol) (n : Nat) (o : List Nat) (h : (n, o) ∈ stereogenicTetrahedrons m)
+    (hk : ((m.nbrs n).map (·.1)).Nodup) : o.Nodup := by
+  rw [(stet_spec m n o h).1]
+  exact hk.filter _
+
+/-- "move stereo labels as is": one tetrahedral request. `KeyError` (centre not stereogenic in chython, or raised inside the
+translation) drops the label silently; any other exception propagates; otherwise the translated sign is stored. -/
+theorem moveTetra_step (env : StereoEnv) (isH : Nat → Bool) (n : Nat) (nb : List Nat) (s : Bool) (m : Mol) :
+    (env.stet.lookup n = none → moveTetra env isH [(n, nb, s)] m = .ok m) ∧
+    (∀ order, env.stet.lookup n = some order →
+      (∀ v, translateTetra order nb isH none (some s) = .ok v → moveTetra env isH [(n, nb, s)] m = .ok (setAtomStereo m n v)) ∧
+      (translateTetra order nb isH none (some s) = .error .keyError → moveTetra env isH [(n, nb, s)] m = .ok m) ∧
+      (translateTetra order nb isH none (some s) = .error .valueError →
+        moveTetra env isH [(n, nb, s)] m = .error (.py .valueError))) := by
+  refine ⟨?_, ?_⟩
+  · intro h; simp [moveTetra, h]
+  · intro order h
+    refine ⟨?_, ?_, ?_⟩
+    · intro v hv; simp [moveTetra, h, hv]
+    · intro hv; simp [moveTetra, h, hv]
+    · intro hv; simp [moveTetra, h, hv]
+
 /-- the tag the model sets is the documented tag of the translated sign; nothing is set for an unlabelled atom or for
 an atom outside `stereogenic_tetrahedrons` (allene centres) -/
 theorem toTag_spec (m : Mol) (env : StereoEnv) (ids : List Nat) (bonds : List RBond) (i n : Nat) (a : Atom) :
